@@ -255,7 +255,10 @@ def run(ctx):
                 'transfer_cmeta_id, RDF triples, remove_variable, re-adding removed names, look-ups) over 4-7 variables; all 32 '
                 'two-connection documents with ids on source / target ends; histories of convert_variable calls with either '
                 'setting of move_annotations on generated models with annotated variables (look-ups by id, RDF and ontology '
-                'term before and after every conversion; oracle only); non-trivial = at least 3 id-changing calls')
+                'term before and after every conversion; oracle only); injected histories "look at the annotations, move the id '
+                'away, give a new id, remove the variable"; annotations whose subject is a resource of another document (absolute / relative URI with '
+                'a local id as fragment); registry consistency (has_cmeta_id / look-up) after loading; non-trivial = at least 3 '
+                'id-changing calls')
     ctx.trusted += ['rdflib graph modelled as a set of (subject id, predicate, object) triples',
                     'calls that hand the model dead or foreign variables (F16) are excluded on both sides']
     cases = load_corpus() + [msm.gen_case(ctx.seed * 100000 + i, 'annot') for i in range(n)]
